@@ -11,7 +11,7 @@ from ..astutil import (
 )
 from ..evalx import Sym
 from ..oracles import load
-from ..report import Registry, sub
+from ..report import Registry, sub, chain
 
 R = Registry(
     "C31",
@@ -921,3 +921,29 @@ R.mutant("benign-extra-edge", DEP,
              "                (parent_saves, after_save),\n                (child_saves, after_save),\n                (after_save, child_deletes),\n                (after_save, parent_deletes),\n"), None)
 R.mutant("benign-execute-rename-local", UOW,
          sub("            for rec in topological.sort(self.dependencies, postsort_actions):\n                rec.execute(self)", "            for action in topological.sort(self.dependencies, postsort_actions):\n                action.execute(self)"), None)
+# --- seeds (str-m) and their neighbourhood
+_O2M_DEL = "            uow.dependencies.update(\n                [(before_delete, child_action), (child_action, delete_parent)]\n            )\n"
+R.mutant("seed1-o2m-perstate-child-before-parent-delete-only-if-child-deleted", DEP,
+         sub(_O2M_DEL, "            uow.dependencies.add((before_delete, child_action))\n            if childisdelete:\n                uow.dependencies.add((child_action, delete_parent))\n"), "C31-R2")
+R.mutant("benign-o2m-perstate-edges-added-one-by-one", DEP,
+         sub(_O2M_DEL, "            uow.dependencies.add((before_delete, child_action))\n            uow.dependencies.add((child_action, delete_parent))\n"), None)
+_CONV = "            convert = {\n                rec: set(rec.per_state_flush_actions(self)) for rec in cycles\n            }\n"
+_LOOP = "            for edge in list(self.dependencies):\n"
+R.mutant("seed2-rewrite-snapshot-taken-before-conversion", UOW,
+         chain(sub(_CONV, "            existing_dependencies = list(self.dependencies)\n\n" + _CONV), sub(_LOOP, "            for edge in existing_dependencies:\n")), "C31-R3")
+R.mutant("rewrite-snapshot-taken-before-cycle-test", UOW,
+         chain(sub("        if cycles:\n            # if yes, break", "        pending = tuple(self.dependencies)\n        if cycles:\n            # if yes, break"),
+               sub(_LOOP, "            for edge in pending:\n")), "C31-R3")
+R.mutant("benign-rewrite-snapshot-bound-after-conversion", UOW,
+         sub(_LOOP, "            edges_to_rewrite = list(self.dependencies)\n            for edge in edges_to_rewrite:\n"), None)
+R.mutant("delete-all-executes-cancelled-deletes", UOW,
+         sub("            uow.states_for_mapper_hierarchy(self.mapper, True, False),\n            uow,\n", "            uow.states_for_mapper_hierarchy(self.mapper, True, True),\n            uow,\n"), "C31-R5")
+R.mutant("state-selector-ignores-listonly", UOW,
+         sub("                if self.states[state] == checktup:\n", "                if self.states[state][0] == isdelete:\n"), "C31-R5")
+R.mutant("delete-all-selects-on-isdelete-only", UOW,
+         sub("            uow.states_for_mapper_hierarchy(self.mapper, True, False),\n            uow,\n", "            [s for s in uow.mappers[self.mapper] if uow.states[s][0]],\n            uow,\n"), "C31-R5")
+R.mutant("benign-delete-all-states-bound-to-local", UOW,
+         sub("        util.preloaded.orm_persistence._delete_obj(\n            self.mapper,\n            uow.states_for_mapper_hierarchy(self.mapper, True, False),\n            uow,\n        )",
+             "        doomed = uow.states_for_mapper_hierarchy(self.mapper, True, False)\n        util.preloaded.orm_persistence._delete_obj(\n            self.mapper,\n            doomed,\n            uow,\n        )"), None)
+R.mutant("benign-remove-state-actions-rename-local", UOW,
+         sub("        isdelete = self.states[state][0]\n\n        self.states[state] = (isdelete, True)\n", "        was_delete = self.states[state][0]\n\n        self.states[state] = (was_delete, True)\n"), None)
